@@ -80,6 +80,7 @@ class Args:
     def __init__(self):
         self.v = {}
         self.snap0 = {}
+        self.kw0 = {}  # entry value (has, val) of **kwargs dict parameters
 
     def __getattr__(self, k):
         if k == "S0":
@@ -527,7 +528,7 @@ class Exec:
         info = {}
         for i in ids:
             d = dict(none=z3.is_true(ev(i == c.NONE)), intlike=z3.is_true(ev(c.intlike(i))),
-                     int_of=ev(c.int_of(i)).as_long(), is_str=z3.is_true(ev(c.is_str(i))),
+                     int_of=ev(c.int_of(i)).as_long(), is_str=z3.is_true(ev(c.is_str(i))), is_int=z3.is_true(ev(c.is_int(i))),
                      is_tuple=z3.is_true(ev(c.is_tuple(i))), hashable=z3.is_true(ev(c.hashable(i))),
                      iterable=z3.is_true(ev(c.iterable(i))), one_shot=z3.is_true(ev(c.one_shot(i))),
                      elems_hashable=z3.is_true(ev(c.elems_hashable(i))), truthy=z3.is_true(ev(c.truthy(i))),
@@ -616,6 +617,9 @@ class Exec:
                 nets[name] = v
         for k, n in nets.items():
             A.snap0[k] = Snap(n)
+        for k, v in A.v.items():
+            if isinstance(v, VAttr):
+                A.kw0[k] = v.get()
         self.A = A
         self.nets = nets
         self.env = env
@@ -1092,7 +1096,8 @@ class Exec:
                 self.assume(c.hashable(x))  # elements of sets / dict keys are hashable
             self.assume_groups(inv(done, x))
             self.bind_loop_var(node, kind, src, x, env)
-            self.loop_stack.append(LoopCtx(self, self.A, self.nets, done, content, x, None, env, distinct))
+            headK = LoopCtx(self, self.A, self.nets, done, content, x, None, env, distinct)
+            self.loop_stack.append(headK)
             try:
                 self.exec_block(node.body, env)
             except _Continue:
@@ -1105,6 +1110,10 @@ class Exec:
                 now = src.keys if kind == "dictkeys" else src.d.keys
                 self.prove(lname + "/iter-stable", "iter-stable", tuple(sorted(self.spec.props)), now == content, h, "loop-step")
             self.prove_groups(lname + "/step", "loop-step", inv(c.add(done, x)), h)
+            if lspec.post is not None:
+                K = LoopCtx(self, self.A, self.nets, done, content, x, None, env, distinct)
+                K.head = headK.snap
+                self.prove_groups(lname + "/step-post", "loop-step-post", self.inv_groups(lspec.post(c, self.A, K)), h)
             raise PathEnd()
         else:
             self.assume_groups(inv(content))
@@ -1213,6 +1222,8 @@ class Exec:
             return VBuiltin(n)
         if n == "random":
             return VModule("random")
+        if n in ("np", "numpy"):
+            return VModule("np")
         q = resolve_function(n)
         if q is not None:
             return VBuiltin("fn:" + q)
